@@ -1025,3 +1025,7 @@ mod tests {
         assert_eq!(got, keys);
     }
 }
+
+#[cfg(kani)]
+#[path = "/verif/kani/storage/btree.rs"]
+mod kani_harness;
